@@ -45,7 +45,8 @@ type Step struct {
 	VM    int    `json:"vm,omitempty"`  // same for Val
 	Dir   int    `json:"dir,omitempty"` // 0 direction omitted, 1 forward, 2 backward
 	Stop  int    `json:"stop,omitempty"`
-	Ext   bool   `json:"ext,omitempty"` // newview: WithExtendedRealm
+	Ext   bool   `json:"ext,omitempty"`  // newview: WithExtendedRealm
+	Keep  bool   `json:"keep,omitempty"` // commit / cancel: the batch object is used again afterwards
 	Wraps []Wrap `json:"wraps,omitempty"`
 	Text  string `json:"text,omitempty"` // human-readable rendition (ignored on replay)
 }
@@ -82,6 +83,11 @@ type batch struct {
 	ops  []kvmodel.BatchOp
 	bufs []*gbuf
 	done bool
+	// ops[sinceCommit:] were recorded after the last Commit of this (re-used) batch object;
+	// ops as a whole since the last Cancel
+	sinceCommit int
+	commits     int
+	cancels     int
 }
 
 type event struct {
@@ -91,28 +97,33 @@ type event struct {
 }
 
 type stats struct {
-	ops         map[string]int
-	evals       int
-	postClose   int
-	scribbles   int
-	crossRealm  int
-	straddle    int
-	earlyStops  int
-	iterMulti   int
-	dbgEvents   int
-	hits        int
-	misses      int
-	batchMixed  int
-	multiBatch  int
-	exactArgs   int
-	spareArgs   int
-	sharedArgs  int
-	reuses      int
-	guardBytes  int
-	sharedViews int
-	sharedPairs int
-	stacks      map[string]bool
-	realmShapes map[string]bool
+	ops               map[string]int
+	evals             int
+	postClose         int
+	scribbles         int
+	crossRealm        int
+	straddle          int
+	earlyStops        int
+	iterMulti         int
+	dbgEvents         int
+	hits              int
+	misses            int
+	batchMixed        int
+	multiBatch        int
+	reuseAfterCommit  int
+	reuseAfterCancel  int
+	recommits         int
+	commitAfterCancel int
+	recommitProbes    int
+	exactArgs         int
+	spareArgs         int
+	sharedArgs        int
+	reuses            int
+	guardBytes        int
+	sharedViews       int
+	sharedPairs       int
+	stacks            map[string]bool
+	realmShapes       map[string]bool
 }
 
 func newStats() *stats {
@@ -136,10 +147,11 @@ type runner struct {
 	uniq    int
 
 	// caller-side buffers (see "caller buffers" below)
-	rt, kt  *gbuf   // shared tables: realms (and keys) are carved out of them as overlapping sub-slices
-	opBufs  []*gbuf // arguments of the operation in progress
-	persist []*gbuf // buffers the library may legitimately still reference (view realms, open batches)
-	pool    []*gbuf // buffers handed to Set / a finished batch: scribbled, then reused for later arguments
+	raw     kvstore.KVStore // the unwrapped root, for read-backs that are not part of the history
+	rt, kt  *gbuf           // shared tables: realms (and keys) are carved out of them as overlapping sub-slices
+	opBufs  []*gbuf         // arguments of the operation in progress
+	persist []*gbuf         // buffers the library may legitimately still reference (view realms, open batches)
+	pool    []*gbuf         // buffers handed to Set / a finished batch: scribbled, then reused for later arguments
 	all     []*gbuf
 	alias   []failure // writes into caller buffers (reported, the history continues)
 	stepNo  int
@@ -523,7 +535,8 @@ func (r *runner) exec(s Step) {
 				r.kt = newTable("key table", s.Val, tableSpare)
 			}
 		}
-		st, ls := r.wrap(mapdb.NewMapDB(), nil, s.Wraps)
+		r.raw = mapdb.NewMapDB()
+		st, ls := r.wrap(r.raw, nil, s.Wraps)
 		r.views = append(r.views, &view{st: st, realm: "", layers: ls})
 		r.st.stacks[stackName(ls)] = true
 
@@ -900,6 +913,12 @@ func (r *runner) exec(s Step) {
 				break
 			}
 		}
+		if b.commits > 0 && b.sinceCommit == len(b.ops) {
+			r.st.reuseAfterCommit++
+		}
+		if b.cancels > 0 && len(b.ops) == 0 {
+			r.st.reuseAfterCancel++
+		}
 		b.ops = append(b.ops, kvmodel.BatchOp{Del: s.Op == "bdel", K: string(s.K), V: string(s.Val)})
 		for _, g := range []*gbuf{kg, vg} {
 			if g != nil {
@@ -928,7 +947,7 @@ func (r *runner) exec(s Step) {
 		}) {
 			return
 		}
-		b.done = true
+		b.done = !s.Keep || closed
 		if closed {
 			if s.Op == "commit" {
 				wantClosed(r, name, err)
@@ -939,18 +958,66 @@ func (r *runner) exec(s Step) {
 		if !wantNil(r, name, err) {
 			return
 		}
-		if s.Op == "commit" {
-			r.m.ApplyBatch(bv.realm, b.ops)
-			for _, o := range b.ops {
-				if !o.Del {
-					r.writer[bv.realm+o.K] = b.view
+		if s.Op == "cancel" {
+			// Cancel discards everything recorded so far: a later Commit of this object applies
+			// only what is recorded from now on
+			b.cancels++
+			b.ops, b.sinceCommit = nil, 0
+			r.unpersist(b.bufs)
+			r.release(b.bufs...)
+			b.bufs = nil
+			return
+		}
+		if b.cancels > 0 && b.commits == 0 {
+			r.st.commitAfterCancel++
+		}
+		// Commit of a re-used batch object: the statement fixes "the last operation per key",
+		// not whether operations that an earlier Commit of the same object already applied are
+		// applied again. Both readings are accepted: (A) only what was recorded since the last
+		// Commit, (B) everything recorded since the last Cancel. Where they differ the store is
+		// read back through the unwrapped root and must equal one of them.
+		ma := r.m.Clone()
+		ma.ApplyBatch(bv.realm, b.ops[b.sinceCommit:])
+		if b.commits > 0 {
+			r.st.recommits++
+			mb := r.m.Clone()
+			mb.ApplyBatch(bv.realm, b.ops)
+			if ma.Canon() != mb.Canon() {
+				r.st.recommitProbes++
+				got := kvmodel.New()
+				if !r.guard("read-back", func() {
+					_ = r.raw.Iterate(kvstore.EmptyPrefix, func(k, v []byte) bool { got.M[string(k)] = string(v); return true })
+				}) {
+					return
+				}
+				switch got.Canon() {
+				case ma.Canon():
+				case mb.Canon():
+					ma = mb
+				default:
+					r.failf("batch.Commit/reused-batch-wrong-state", "Commit #%d of a re-used batch object on realm %s left the store as %s; neither applying the operations recorded since the previous Commit (%s) nor all operations since the last Cancel (%s) gives that", b.commits+1, qs(bv.realm), fmtMap(got), fmtMap(ma), fmtMap(mb))
+					return
 				}
 			}
 		}
-		r.unpersist(b.bufs)
-		r.release(b.bufs...)
+		r.m = ma
+		for _, o := range b.ops[b.sinceCommit:] {
+			if !o.Del {
+				r.writer[bv.realm+o.K] = b.view
+			}
+		}
+		b.commits++
+		b.sinceCommit = len(b.ops)
+		if b.done {
+			// buffers of a batch that is not used again: the data must have been copied by now
+			r.unpersist(b.bufs)
+			r.release(b.bufs...)
+			b.bufs = nil
+		}
 	}
 }
+
+func fmtMap(m *kvmodel.Model) string { return fmtKV(m.Iterate("", "", false)) }
 
 func eqKV(a, b []kvmodel.KV) bool {
 	if len(a) != len(b) {
@@ -1163,7 +1230,7 @@ func (g *gen) next(postClose bool) Step {
 		ws = append(ws, weighted{"newbatch", 4})
 	}
 	if len(openBatches) > 0 {
-		ws = append(ws, weighted{"bset", 9}, weighted{"bdel", 5}, weighted{"commit", 3}, weighted{"cancel", 1})
+		ws = append(ws, weighted{"bset", 9}, weighted{"bdel", 6}, weighted{"commit", 4}, weighted{"cancel", 2})
 	}
 	if postClose {
 		for i := range ws {
@@ -1240,6 +1307,9 @@ func (g *gen) next(postClose bool) Step {
 				s.VM = g.mode(s.Val)
 			}
 			s.KM = g.mode(s.K)
+		} else {
+			// batch objects are used again after Commit and after Cancel (several cycles)
+			s.Keep = rng.Intn(5) < 3
 		}
 	}
 	return s
@@ -1273,6 +1343,9 @@ func describe(r *runner, s Step) string {
 	case "bdel":
 		return fmt.Sprintf("batch%d.Delete(%q%s)", s.B, s.K, m(s.KM))
 	case "commit", "cancel":
+		if s.Keep {
+			return fmt.Sprintf("batch%d.%s() [object used again]", s.B, s.Op)
+		}
 		return fmt.Sprintf("batch%d.%s()", s.B, s.Op)
 	case "iterate", "iteratekeys":
 		return fmt.Sprintf("%s.%s(%q, dir=%d, stop=%d)", vr, s.Op, s.K, s.Dir, s.Stop)
@@ -1400,6 +1473,11 @@ func run(c *vf.Ctx) {
 		c.Count("get_misses", st.misses)
 		c.Count("batch_set_delete_mixes", st.batchMixed)
 		c.Count("batches_opened_while_another_open", st.multiBatch)
+		c.Count("batch_reuse_after_commit", st.reuseAfterCommit)
+		c.Count("batch_reuse_after_cancel", st.reuseAfterCancel)
+		c.Count("batch_recommits", st.recommits)
+		c.Count("batch_commits_after_cancel", st.commitAfterCancel)
+		c.Count("batch_recommit_readbacks", st.recommitProbes)
 		c.Count("args_exact_size", st.exactArgs)
 		c.Count("args_with_spare_capacity", st.spareArgs)
 		c.Count("args_carved_from_shared_table", st.sharedArgs)
@@ -1466,6 +1544,11 @@ func run(c *vf.Ctx) {
 			st.misses += hs.misses
 			st.batchMixed += hs.batchMixed
 			st.multiBatch += hs.multiBatch
+			st.reuseAfterCommit += hs.reuseAfterCommit
+			st.reuseAfterCancel += hs.reuseAfterCancel
+			st.recommits += hs.recommits
+			st.commitAfterCancel += hs.commitAfterCancel
+			st.recommitProbes += hs.recommitProbes
 			st.exactArgs += hs.exactArgs
 			st.spareArgs += hs.spareArgs
 			st.sharedArgs += hs.sharedArgs
@@ -1487,6 +1570,9 @@ func run(c *vf.Ctx) {
 	c.Require("debug_callbacks_checked", 5000)
 	c.Require("batch_set_delete_mixes", 200)
 	c.Require("scribbled_bytes", 10000)
+	c.Require("batch_reuse_after_commit", 2000)
+	c.Require("batch_reuse_after_cancel", 2000)
+	c.Require("batch_recommits", 2000)
 	c.Require("args_with_spare_capacity", 100000)
 	c.Require("args_carved_from_shared_table", 50000)
 	c.Require("arg_buffers_reused_after_set_or_commit", 20000)
